@@ -24,7 +24,7 @@ type Resp struct {
 	Text string    `json:"text,omitempty"`
 	Tags []string  `json:"tags,omitempty"`
 	Opts []OptResp `json:"opts,omitempty"`
-	Err  string    `json:"err,omitempty"` // real side only, informational
+	Err  string    `json:"err,omitempty"`  // real side only, informational
 	Wild bool      `json:"wild,omitempty"` // model: texts contain \x00 where a number's display form is not claimed
 }
 
@@ -80,8 +80,8 @@ type Model struct {
 	pending  *MInv
 	handlers map[string]HandlerSpec
 	scheds   []Sched
-	invs     []*MInv // invocations of host handlers, in order
-	waits    []*MInv // built-in waits
+	invs     []*MInv  // invocations of host handlers, in order
+	waits    []*MInv  // built-in waits
 	calls    []string // host function call log, in order
 	now      int64    // simulated ns
 	steps    int
